@@ -1,8 +1,9 @@
 ------------------------------- MODULE Ledger -------------------------------
 (***************************************************************************)
-(* The applied-evolution ledger under upgrade runs interleaved with the     *)
-(* repair commands mark-evolution-applied and wipe-evolution (property C08, *)
-(* the part of its quantifier about those commands).                        *)
+(* The applied-evolution ledger under upgrade runs - completing, rejected,  *)
+(* idle or FAILING - interleaved with the repair commands                   *)
+(* mark-evolution-applied and wipe-evolution (property C08, the part of its *)
+(* quantifier about those commands).                                        *)
 (*                                                                         *)
 (* Two apps of the chain family (evolution i leads from version i-1 to i    *)
 (* and is valid on no other version) that share their evolution labels.     *)
@@ -11,7 +12,7 @@
 (***************************************************************************)
 EXTENDS Integers, Sequences, FiniteSets, TLC, Json
 
-CONSTANTS MaxVer, MaxOps, EmitRecords
+CONSTANTS MaxVer, MaxOps, EmitRecords, WithFaults
 
 Apps == {"a1", "a2"}
 VARIABLES code,      \* deployed version of each app (-1: not installed)
@@ -73,6 +74,16 @@ RunOn(S, opname) ==
                        executed |-> [a \in Apps |-> IF a \in S THEN Muts(a) ELSE {}]])
                /\ UNCHANGED code
 Run == RunOn(Installed, "run")
+
+(* fault: the run fails at the first statement of its first evolution.  Nothing has been committed
+   at that point (no app is being created in this run), so nothing at all changes: no row, no
+   execution that counts, no signature - and the ledger commands and later runs go on from there *)
+RunFails ==
+    /\ Installed # {}
+    /\ \A a \in Installed : Reaches(a) /\ ~New(a)
+    /\ \E a \in Installed : Muts(a) # {}
+    /\ Log([op |-> "runfail", apps |-> Installed, outcome |-> "failed", executed |-> [a \in Apps |-> {}]])
+    /\ UNCHANGED <<code, stored, tab, rec, execs>>
 RunOnly(a) == a \in Installed /\ Cardinality(Installed) > 1 /\ RunOn({a}, "runonly")
 
 (* mark-evolution-applied --app-label a LABEL: refuses labels that are already applied *)
@@ -110,6 +121,7 @@ Wipe(a, i, withLabel) ==
 Next == /\ Len(hist) < MaxOps
         /\ \/ \E a \in Apps, v \in 0..MaxVer : Deploy(a, v)
            \/ Run
+           \/ (WithFaults /\ RunFails)
            \/ \E a \in Apps : RunOnly(a)
            \/ \E a \in Apps, i \in Labels : Mark(a, i)
            \/ \E a \in Apps : MarkAll(a)
@@ -126,7 +138,7 @@ RecordedNeverExecutedAgain ==
     [][ \A a \in Apps, i \in Labels : (rec[a][i] > 0 /\ execs'[a][i] > execs[a][i]) => FALSE ]_vars
 (* only a run that completes records; a rejected or idle run changes nothing *)
 OnlyCompletedRunsRecord ==
-    [][ (last'.op \in {"run", "runonly"} /\ last'.outcome # "executed")
+    [][ (last'.op \in {"run", "runonly", "runfail"} /\ last'.outcome # "executed")
             => UNCHANGED <<rec, execs, stored, tab>> ]_vars
 (* a run limited to one app leaves the other app's ledger and signature alone *)
 LimitedRunTouchesOnlyItsApp ==
